@@ -49,7 +49,30 @@ def validate(ctx, scs, tag):
     return summ, runs, accepted, rejects
 
 
+def join_all(ctx):
+    """join_all.rs against JoinAll.tla: every script vector (1..3 futures, 0..2 Pending polls each) emitted by TLC is run
+    on the crate's JoinAll; rounds until Ready, polls per future and the result order must equal the spec's."""
+    res = ctx.model_check("server/JoinAll.tla", "MC_C06_joinall.cfg", workers=1)
+    vlib.require_ok(res, "MC_C06_joinall.cfg")
+    ctx.add_tlc("MC_C06_joinall.cfg", res, "exhaustive over all scripts; vectors")
+    ctx.expect_neg("server/JoinAll.tla", "NEG_C06_joinall_ReadyFromLastOnly.cfg", ["C06_JoinAllWaitsForAll"])
+    vecs = list(vlib.tagged_json(res.stdout, "VEC"))
+    vfile = os.path.join(ctx.workdir, "joinall-vectors.ndjson")
+    tfile = os.path.join(ctx.workdir, "joinall-trace.ndjson")
+    vlib.write_ndjson(vfile, vecs)
+    r = vlib.run_harness("vsrv", ["joinall", "--vectors", vfile, "--trace", tfile])
+    summ = json.loads(r.stdout.strip().splitlines()[-1])
+    ctx.cov["evaluations"] += len(vecs)
+    ctx.cov["distinct_nontrivial"] += sum(1 for v in vecs if len(v["k"]) > 1 and len(set(v["k"])) > 1)
+    ctx.cov["joinall_vectors"] = len(vecs)
+    for m in summ["first_mismatches"][:3]:
+        ctx.violation("joinall", "join_all: scripts %s: the spec gives rounds=%s polls=%s result=%s, the crate's JoinAll gives %s" % (
+            m["expected"]["k"], m["expected"]["rounds"], m["expected"]["polls"], m["expected"]["result"], json.dumps(m["observed"])),
+            {"mode": "joinall", "vector": m["expected"]})
+
+
 def run(ctx):
+    join_all(ctx)
     for cfg, note in ([("MC_stop_quick.cfg", "exhaustive")] if ctx.quick else
                       [("MC_stop_quick.cfg", "exhaustive"), ("MC_stop_thorough.cfg", "exhaustive, 3 connections/worker, timeout 3")]):
         res = ctx.model_check(MOD, cfg, workers=8)
@@ -86,6 +109,8 @@ def run(ctx):
 def replay(ctx, path):
     vlib.cargo_build(["vsrv"])
     rp = json.load(open(path))["replay"]
+    if rp.get("mode") == "joinall":
+        return join_all(ctx)
     summ, runs, accepted, rejects = validate(ctx, [rp["scenario"]], "c06e2e-replay")
     ctx.cov.update({"evaluations": 1, "distinct_nontrivial": 1, "states": 1, "transitions": 1,
                     "traces_validated_against_impl": accepted, "samples": [runs[0][-1]]})
